@@ -1,11 +1,16 @@
 package eng
 
 import (
+	"bytes"
 	"errors"
 	"fmt"
+	"os"
+	"runtime"
 	"sort"
+	"strconv"
 	"strings"
 	"sync"
+	"sync/atomic"
 	"time"
 
 	"github.com/anishathalye/porcupine"
@@ -44,6 +49,17 @@ type sched struct {
 	finished chan string // "" = all threads done, otherwise the reason (deadlock, bad prefix)
 	aborted  bool
 	diverged string
+
+	// Threads blocked on a lock INSIDE clover (which the store-level hooks cannot see): the thread that was given the
+	// processor never reaches its next store call because a parked thread holds the lock. The monitor of runSchedule
+	// recognises this from the goroutine's wait state and stack (never from elapsed time alone), marks the thread
+	// stalled - disabled - and lets another thread run; the stalled thread parks itself at its next store call.
+	mu       sync.Mutex
+	gids     []int64
+	stalled  []bool
+	anyStall int32 // atomic: some thread stalled during this execution (thread identity then comes from the goroutine id)
+	stalls   int
+	progress int64 // atomic: store calls and scheduling events so far
 }
 
 func newSched(n int, bbolt bool, mode string, prefix []int) *sched {
@@ -57,16 +73,32 @@ func newSched(n int, bbolt bool, mode string, prefix []int) *sched {
 	s.pending = make([]vstore.Call, n)
 	s.pendOp = make([]bool, n)
 	s.begins = make([]int, n)
+	s.gids = make([]int64, n)
+	s.stalled = make([]bool, n)
 	for i := range s.pendOp {
 		s.pendOp[i] = true
 	}
 	return s
 }
 
-func (s *sched) tick() int64 { s.clock++; return s.clock }
+func (s *sched) tick() int64 { return atomic.AddInt64(&s.clock, 1) }
+
+// whoami: the client thread the calling goroutine belongs to.
+func (s *sched) whoami() int {
+	if atomic.LoadInt32(&s.anyStall) == 0 {
+		return s.cur // exactly one client goroutine runs
+	}
+	g := goid()
+	for t, id := range s.gids {
+		if id == g {
+			return t
+		}
+	}
+	return s.cur
+}
 
 func (s *sched) enabledThread(t int) bool {
-	if s.done[t] {
+	if s.done[t] || s.stalled[t] {
 		return false
 	}
 	if s.bbolt && !s.pendOp[t] {
@@ -98,6 +130,9 @@ func (s *sched) decide(running int, what string) int {
 		choice = s.prefix[i]
 		if choice >= len(en) {
 			s.diverged = fmt.Sprintf("replay diverged: decision %d has %d enabled threads, the schedule asks for #%d", i, len(en), choice)
+			if os.Getenv("VERIF_SCHED_DEBUG") != "" {
+				s.diverged += " | replay trace: " + traceOf(s.points) + fmt.Sprintf(" now=%s en=%v stalled=%v done=%v", what, en, s.stalled, s.done)
+			}
 			return -2
 		}
 	}
@@ -107,7 +142,12 @@ func (s *sched) decide(running int, what string) int {
 
 // point is called by the running thread before a store call (or at an operation boundary).
 func (s *sched) point(t int, c vstore.Call, opBoundary bool) {
+	atomic.AddInt64(&s.progress, 1)
+	s.mu.Lock()
 	s.pending[t], s.pendOp[t] = c, opBoundary
+	s.mu.Unlock()
+	s.settle()
+	s.mu.Lock()
 	what := "op"
 	if !opBoundary {
 		what = c.Kind.String()
@@ -118,38 +158,145 @@ func (s *sched) point(t int, c vstore.Call, opBoundary bool) {
 		if next == -2 {
 			s.finished <- s.diverged
 		} else {
-			s.finished <- "deadlock: no thread is enabled"
+			s.finished <- s.deadlockReason()
 		}
+		s.mu.Unlock()
 		select {} // park this goroutine forever; the execution is discarded
 	}
 	s.tick()
 	if next != t {
 		s.cur = next
+		s.mu.Unlock()
 		s.wake[next] <- struct{}{}
 		<-s.wake[t]
+		return
 	}
+	s.mu.Unlock()
+}
+
+func (s *sched) deadlockReason() string {
+	for t, st := range s.stalled {
+		if st && !s.done[t] {
+			return "deadlock: no thread is enabled (thread " + fmt.Sprint(t) + " waits for a lock inside clover that no runnable thread holds)"
+		}
+	}
+	return "deadlock: no thread is enabled"
 }
 
 func (s *sched) exit(t int) {
+	atomic.AddInt64(&s.progress, 1)
+	s.mu.Lock()
 	s.done[t] = true
 	all := true
 	for _, d := range s.done {
 		all = all && d
 	}
 	if all {
+		s.cur = -1
+		s.mu.Unlock()
 		s.finished <- ""
 		return
 	}
+	s.mu.Unlock()
+	s.settle()
+	s.mu.Lock()
+	defer s.mu.Unlock()
 	next := s.decide(-1, fmt.Sprintf("t%d:end", t))
 	if next < 0 {
 		s.aborted = true
 		if next == -2 {
 			s.finished <- s.diverged
 		} else {
-			s.finished <- "deadlock: no thread is enabled"
+			s.finished <- s.deadlockReason()
 		}
 		return
 	}
+	s.cur = next
+	s.wake[next] <- struct{}{}
+}
+
+// parkResumed: a stalled thread got its lock and reached a store call while another thread has the processor: it
+// becomes an ordinary parked (enabled) thread again and waits for a decision to pick it.
+func (s *sched) parkResumed(t int, c vstore.Call) bool {
+	s.mu.Lock()
+	if !s.stalled[t] {
+		s.mu.Unlock()
+		return false
+	}
+	s.stalled[t] = false
+	s.pending[t], s.pendOp[t] = c, false
+	s.mu.Unlock()
+	atomic.AddInt64(&s.progress, 1)
+	<-s.wake[t]
+	return true
+}
+
+// settle waits until every stalled thread has either arrived at a store call (and parked) or is, in one and the
+// same snapshot of all goroutines, still blocked on a lock inside clover: the set of enabled threads at the
+// coming decision is then a function of the lock state, not of timing.
+func (s *sched) settle() {
+	if atomic.LoadInt32(&s.anyStall) == 0 {
+		return
+	}
+	deadline := time.Now().Add(20 * time.Second)
+	for {
+		s.mu.Lock()
+		ids := []int64{}
+		for t, st := range s.stalled {
+			if st && !s.done[t] {
+				ids = append(ids, s.gids[t])
+			}
+		}
+		s.mu.Unlock()
+		if len(ids) == 0 {
+			return
+		}
+		states := goroutineStates(ids)
+		quiet := true
+		for _, id := range ids {
+			if !states[id] {
+				quiet = false
+			}
+		}
+		if quiet || time.Now().After(deadline) {
+			return
+		}
+		time.Sleep(200 * time.Microsecond)
+	}
+}
+
+// stall is called by the monitor when the thread that has the processor is blocked on a lock inside clover.
+func (s *sched) stall(t int, seen int64) {
+	s.mu.Lock()
+	if s.cur != t || s.done[t] || s.stalled[t] || s.aborted || atomic.LoadInt64(&s.progress) != seen {
+		s.mu.Unlock()
+		return
+	}
+	s.stalled[t] = true
+	s.stalls++
+	atomic.StoreInt32(&s.anyStall, 1)
+	s.mu.Unlock()
+	s.settle()
+	s.mu.Lock()
+	defer s.mu.Unlock()
+	if s.cur != t || s.aborted {
+		return
+	}
+	if !s.stalled[t] {
+		// it got the lock meanwhile and parked itself at its next store call: an ordinary decision
+	}
+	next := s.decide(t, fmt.Sprintf("t%d:blocked", t))
+	if next < 0 {
+		s.aborted = true
+		if next == -2 {
+			s.finished <- s.diverged
+		} else {
+			s.finished <- s.deadlockReason()
+		}
+		return
+	}
+	s.tick()
+	atomic.AddInt64(&s.progress, 1)
 	s.cur = next
 	s.wake[next] <- struct{}{}
 }
@@ -170,8 +317,11 @@ const (
 // yieldIfBlocked is called before a call that is not a free choice point: the running thread continues unless
 // the call is disabled (bbolt: Begin(true) while another thread holds the write transaction).
 func (s *sched) yieldIfBlocked(t int, c vstore.Call) {
+	s.mu.Lock()
 	s.pending[t], s.pendOp[t] = c, false
-	if s.enabledThread(t) {
+	ok := s.enabledThread(t)
+	s.mu.Unlock()
+	if ok {
 		return
 	}
 	s.point(t, c, false)
@@ -252,6 +402,14 @@ func runSchedule(in *drv.Inst, snap []vstore.KV, sc *Scenario, mode string, pref
 		if s.aborted {
 			select {}
 		}
+		atomic.AddInt64(&s.progress, 1)
+		t := s.whoami()
+		if atomic.LoadInt32(&s.anyStall) != 0 && s.parkResumed(t, c) {
+			if c.Kind == vstore.Begin {
+				s.begins[t]++
+			}
+			return // a decision has just picked this thread: it goes on with the call
+		}
 		var isPoint bool
 		switch s.mode {
 		case ModeReduced:
@@ -259,8 +417,8 @@ func runSchedule(in *drv.Inst, snap []vstore.KV, sc *Scenario, mode string, pref
 			if c.Kind == vstore.Begin {
 				// the reduction assumes one transaction per operation; a second (third, ...) transaction inside
 				// one operation opens a window between two snapshots, which must be schedulable
-				s.begins[s.cur]++
-				if s.begins[s.cur] > 1 {
+				s.begins[t]++
+				if s.begins[t] > 1 {
 					isPoint = true
 				}
 			}
@@ -270,22 +428,29 @@ func runSchedule(in *drv.Inst, snap []vstore.KV, sc *Scenario, mode string, pref
 			isPoint = c.Kind != vstore.Valid && c.Kind != vstore.CursorClose && !c.Done
 		}
 		if isPoint {
-			s.point(s.cur, c, false)
+			s.point(t, c, false)
 		} else if c.Kind == vstore.Begin {
-			s.yieldIfBlocked(s.cur, c)
+			s.yieldIfBlocked(t, c)
 		}
 	}
 	in.V.PostHook = func(c vstore.Call) {
+		t := s.whoami()
+		s.mu.Lock()
 		if c.Kind == vstore.Begin && c.Update {
-			s.writer = s.cur
+			s.writer = t
 		}
-		if (c.Kind == vstore.Commit || c.Kind == vstore.Rollback) && c.Update && !c.Done && s.writer == s.cur {
+		if (c.Kind == vstore.Commit || c.Kind == vstore.Rollback) && c.Update && !c.Done && s.writer == t {
 			s.writer = -1
 		}
+		s.mu.Unlock()
 	}
+	var ready sync.WaitGroup
+	ready.Add(n)
 	for t := 0; t < n; t++ {
 		t := t
 		go func() {
+			s.gids[t] = goid()
+			ready.Done()
 			<-s.wake[t]
 			for _, op := range sc.Threads[t] {
 				s.point(t, vstore.Call{}, true)
@@ -304,13 +469,56 @@ func runSchedule(in *drv.Inst, snap []vstore.KV, sc *Scenario, mode string, pref
 			s.exit(t)
 		}()
 	}
+	ready.Wait()
+	// monitor: when no store call and no scheduling event has happened for a while, look at the goroutine that has
+	// the processor; only a wait state on a lock with clover's own code on top of the stack makes it "stalled"
+	stopMon := make(chan struct{})
+	defer close(stopMon)
+	go func() {
+		tick := time.NewTicker(time.Millisecond)
+		defer tick.Stop()
+		last, idle, wait := int64(-1), 0, 3
+		for {
+			select {
+			case <-stopMon:
+				return
+			case <-tick.C:
+			}
+			p := atomic.LoadInt64(&s.progress)
+			if p != last {
+				last, idle, wait = p, 0, 3
+				continue
+			}
+			idle++
+			if idle < wait {
+				continue
+			}
+			s.mu.Lock()
+			cur := s.cur
+			s.mu.Unlock()
+			if cur < 0 {
+				continue
+			}
+			if goroutineStates([]int64{s.gids[cur]})[s.gids[cur]] {
+				s.stall(cur, p)
+				idle, wait = 0, 3
+			} else {
+				idle = 0
+				if wait < 1000 {
+					wait *= 2 // a long computation or a slow store call: look less often
+				}
+			}
+		}
+	}()
 	first := s.decide(-1, "start")
 	if first < 0 {
 		x.abort = "replay diverged at the first decision"
 		in.V.Hook, in.V.PostHook = nil, nil
 		return x
 	}
+	s.mu.Lock()
 	s.cur = first
+	s.mu.Unlock()
 	s.wake[first] <- struct{}{}
 	select {
 	case why := <-s.finished:
@@ -647,8 +855,8 @@ func SchedExplore(cfg *SchedConfig, run *ev.Run) {
 		}
 	}
 	// depth-first enumeration; the first levels are expanded sequentially to produce independent subtrees
-	var expand func(w *schedWorker, prefix []int, depthLimit int, out *[][]int)
-	expand = func(w *schedWorker, prefix []int, depthLimit int, out *[][]int) {
+	var expand func(w *schedWorker, prefix []int, depthLimit int, out *[][]int, parentTrace string)
+	expand = func(w *schedWorker, prefix []int, depthLimit int, out *[][]int, parentTrace string) {
 		if cfg.Budget > 0 && time.Since(start) > cfg.Budget {
 			capped = true
 			return
@@ -660,7 +868,11 @@ func SchedExplore(cfg *SchedConfig, run *ev.Run) {
 			return
 		}
 		x := runSchedule(w.in, snap, sc, cfg.Mode, prefix)
+		if os.Getenv("VERIF_SCHED_DEBUG") != "" && strings.HasPrefix(x.abort, "replay") {
+			x.abort += " | parent trace: " + parentTrace
+		}
 		checkExec(w, x)
+		myTrace := traceOf(x.points)
 		for i := len(prefix); i < len(x.points); i++ {
 			p := x.points[i]
 			cost := x.preemptionsBefore(i)
@@ -675,15 +887,15 @@ func SchedExplore(cfg *SchedConfig, run *ev.Run) {
 				if out != nil && len(np) > depthLimit {
 					*out = append(*out, np)
 				} else {
-					expand(w, np, depthLimit, out)
+					expand(w, np, depthLimit, out, myTrace)
 				}
 			}
 		}
 	}
 	subtrees := [][]int{}
-	expand(getW(0), nil, 3, &subtrees)
+	expand(getW(0), nil, 3, &subtrees, "")
 	ParallelFor(len(subtrees), 0, func(wi, i int) {
-		expand(getW(wi), subtrees[i], 0, nil)
+		expand(getW(wi), subtrees[i], 0, nil, "")
 	})
 	pfx := strings.ReplaceAll(name, "/", "_") + "_"
 	run.Set(pfx+"seconds", float64(int(time.Since(start).Seconds()*10))/10)
@@ -705,6 +917,14 @@ func SchedExplore(cfg *SchedConfig, run *ev.Run) {
 		run.NotExhaustive(fmt.Sprintf("%s: time budget %s reached after %d schedules", name, cfg.Budget, schedules))
 	}
 	run.Sample(map[string]interface{}{"scenario": name, "threads": sc.Threads, "schedules": schedules, "distinct_outcomes": len(outcomes)})
+}
+
+func traceOf(ps []schedPoint) string {
+	parts := []string{}
+	for i, p := range ps {
+		parts = append(parts, fmt.Sprintf("%d:%s%v->%d", i, p.what, p.enabled, p.choice))
+	}
+	return strings.Join(parts, " ")
 }
 
 func describeHist(x *execution) string {
@@ -778,4 +998,76 @@ func pregrowIfBBolt(in *drv.Inst) {
 	drv.Exec(in, m.Op{K: "insert", Coll: "__grow", Docs: docs})
 	drv.Exec(in, m.Op{K: "dropColl", Coll: "__grow"})
 	in.V.ForgetLeaks()
+}
+
+// ---- goroutine inspection (for locks inside clover that the store-level hooks cannot see) ----
+
+func goid() int64 {
+	var buf [64]byte
+	n := runtime.Stack(buf[:], false)
+	f := bytes.Fields(buf[:n])
+	if len(f) < 2 {
+		return -1
+	}
+	id, _ := strconv.ParseInt(string(f[1]), 10, 64)
+	return id
+}
+
+const cloverModule = "github.com/ostafen/clover/v2"
+
+// goroutineStates reports, for each goroutine id, whether it is blocked on a synchronisation primitive with a
+// function of clover itself as the innermost frame that is not runtime or sync code. One call takes one consistent
+// snapshot of every goroutine.
+func goroutineStates(ids []int64) map[int64]bool {
+	buf := make([]byte, 1<<20)
+	for {
+		n := runtime.Stack(buf, true)
+		if n < len(buf) {
+			buf = buf[:n]
+			break
+		}
+		buf = make([]byte, 2*len(buf))
+	}
+	out := map[int64]bool{}
+	for _, id := range ids {
+		out[id] = false
+		hdr := []byte(fmt.Sprintf("goroutine %d [", id))
+		i := bytes.Index(buf, hdr)
+		if i < 0 || (i > 0 && buf[i-1] != '\n') {
+			continue
+		}
+		rest := buf[i+len(hdr):]
+		j := bytes.IndexByte(rest, ']')
+		if j < 0 {
+			continue
+		}
+		state := string(rest[:j])
+		if k := strings.IndexByte(state, ','); k >= 0 {
+			state = state[:k]
+		}
+		switch state {
+		case "sync.Mutex.Lock", "sync.RWMutex.Lock", "sync.RWMutex.RLock", "sync.Cond.Wait", "chan receive", "chan send", "select", "sync.WaitGroup.Wait": // not the generic "semacquire": the runtime itself waits that way (stop-the-world, GC)
+		default:
+			continue
+		}
+		body := rest[j:]
+		if e := bytes.Index(body, []byte("\n\n")); e >= 0 {
+			body = body[:e]
+		}
+		lines := strings.Split(string(body), "\n")
+		for _, ln := range lines[1:] {
+			if strings.HasPrefix(ln, "\t") || ln == "" {
+				continue
+			}
+			if strings.HasPrefix(ln, "runtime.") || strings.HasPrefix(ln, "sync.") || strings.HasPrefix(ln, "sync/") || strings.HasPrefix(ln, "internal/") {
+				continue
+			}
+			out[id] = strings.HasPrefix(ln, cloverModule)
+			if out[id] && os.Getenv("VERIF_SCHED_DEBUG") == "2" {
+				fmt.Fprintf(os.Stderr, "STALL goroutine %d [%s]\n%s\n\n", id, state, strings.Join(lines[:min(len(lines), 14)], "\n"))
+			}
+			break
+		}
+	}
+	return out
 }
